@@ -190,12 +190,16 @@ func (p *prop) Run(line string) core.Outcome {
 	tf := tokenize(bytes.Clone(fx))
 	ffx, _ := format(bytes.Clone(fx))
 	idem := bytes.Equal(ffx, fx)
-	o := core.Outcome{Impl: fmt.Sprintf("F:%s T:%s U:%s I:%d", core.Hex(string(fx)), tx, tf, b2i(idem))}
+	proved := inProvedFragment(xs)
+	o := core.Outcome{Impl: fmt.Sprintf("F:%s T:%s U:%s I:%d W:%d", core.Hex(string(fx)), tx, tf, b2i(idem), b2i(proved))}
 
 	// ---- tags
 	feats := features(xs)
 	if len(feats) == 0 {
 		o.Tags = append(o.Tags, "clean-fragment")
+	}
+	if proved {
+		o.Tags = append(o.Tags, "in-proved-fragment-W")
 	}
 	for _, ft := range feats {
 		o.Tags = append(o.Tags, "feat:"+ft)
@@ -223,7 +227,9 @@ func (p *prop) Run(line string) core.Outcome {
 
 	// ---- oracle
 	cls := "clean"
-	if len(feats) == 1 {
+	if proved {
+		cls = "proved-fragment" // a theorem says this cannot fail: model and code have diverged
+	} else if len(feats) == 1 {
 		cls = feats[0]
 	} else if len(feats) > 1 {
 		cls = "multiple-risky-constructs"
